@@ -527,6 +527,26 @@ theorem famRel_append (n : Nat) (fl : St W) (l l' : List (Sess W)) (a b : Sess W
       rw [hj] at h1
       simp at h1
 
+theorem setW_ok (eid : Nat) (w : W) (hw : 0 ≤ w) (σ : Sess W) (h : SessOK σ) : SessOK (setW eid w σ) := by
+  refine ⟨?_, h.nodes, ?_, h.clean⟩
+  · intro e he
+    simp only [setW, List.mem_map] at he
+    obtain ⟨e0, he0, rfl⟩ := he
+    obtain ⟨a, b, c⟩ := h.wf e0 he0
+    split
+    · exact ⟨a, b, hw⟩
+    · exact ⟨a, b, c⟩
+  · intro e he
+    simp only [setW, List.mem_map] at he
+    obtain ⟨e0, he0, rfl⟩ := he
+    split
+    · exact h.ends e0 he0
+    · exact h.ends e0 he0
+
+theorem setW_core (eid : Nat) (w : W) (σ σ' : Sess W) (h : SameCore σ σ') : SameCore (setW eid w σ) (setW eid w σ') := by
+  obtain ⟨c1, c2, c3, c4⟩ := h
+  exact ⟨by simp only [setW, c1], c2, c3, c4⟩
+
 /-- **one step of a program, shared vs private `Node` objects**: same answer, and the two families stay related -/
 theorem execFam_step (F : Fam W) (nets : List (Sess W)) (h : FamRel F nets) (op : FamOp W) :
     (execFam F op).2 = (execFamU F.n nets op).2 ∧ FamRel (execFam F op).1 (execFamU F.n nets op).1 ∧
@@ -612,6 +632,18 @@ theorem execFam_step (F : Fam W) (nets : List (Sess W)) (h : FamRel F nets) (op 
             exact h.2 j τ τ' g1 g2
         · simp only [hs]
           exact ⟨rfl, h, rfl⟩
+  | setWeight eid w =>
+    simp only [execFam, execFamU]
+    by_cases hw : w < 0
+    · simp only [hw, if_true]; exact ⟨trivial, h, trivial⟩
+    · simp only [hw, if_false]
+      refine ⟨trivial, ⟨by simp [h.1], ?_⟩, trivial⟩
+      intro k τ τ' g1 g2
+      simp only [List.getElem?_map, Option.map_eq_some_iff] at g1 g2
+      obtain ⟨σ, g1, rfl⟩ := g1
+      obtain ⟨σ', g2, rfl⟩ := g2
+      obtain ⟨hc, hok⟩ := h.2 k σ σ' g1 g2
+      exact ⟨setW_core eid w σ σ' hc, setW_ok eid w (not_lt.mp hw) σ' hok⟩
 
 theorem famRel_new (n : Nat) : FamRel (Fam.new n : Fam W) [] := by
   refine ⟨rfl, ?_⟩
